@@ -17,7 +17,7 @@ RULE = ('per case 2-6 bundles for a local endpoint, each either clean (no securi
         'acceptance on/off, key store contents and deletion-report request drawn per case. A clean bundle always follows a bad one. '
         'Non-trivial: at least one malformed bundle; distinct = digest of the case descriptors.')
 COMPONENTS = bc.COMPONENTS
-PROBES = tuple('bad.' + name for name in ('wrong-key', 'unknown-kid', 'altered-target', 'altered-target-attached-original', 'targets-not-array', 'unknown-context', 'target-absent', 'dup-param', 'dup-param-apart', 'dup-result', 'dup-result-apart', 'zero-results',
+PROBES = tuple('bad.' + name for name in ('wrong-key', 'unknown-kid', 'altered-target', 'altered-target-attached-original', 'targets-not-array', 'unknown-context', 'target-absent', 'dup-param', 'dup-param-apart', 'dup-result', 'dup-result-apart', 'two-targets-second-altered', 'two-targets-first-altered', 'zero-results',
                                            'two-results', 'cose-garbage', 'asb-not-cbor', 'last-of-two-bibs', 'good-bib-bad-bcb', 'bad-bib-good-bcb', 'bitflip')) + (
     'good.none', 'good.bib', 'good.bcb', 'good.bib+bcb', 'accept.on', 'accept.off', 'probe.recv_exception', 'rpt.security_reason', 'dest.admin_endpoint')
 ASSUMPTIONS = ['an exception leaving recv_bundle() is a probe; it counts only through its consequence (delivery)',
@@ -25,7 +25,7 @@ ASSUMPTIONS = ['an exception leaving recv_bundle() is a probe; it counts only th
 CHUNK = 25
 BUDGET = {'quick': 30, 'thorough': 400}
 
-BAD = ('wrong-key', 'unknown-kid', 'altered-target', 'altered-target-attached-original', 'targets-not-array', 'unknown-context', 'target-absent', 'dup-param', 'dup-param-apart', 'dup-result', 'dup-result-apart', 'zero-results', 'two-results',
+BAD = ('wrong-key', 'unknown-kid', 'altered-target', 'altered-target-attached-original', 'targets-not-array', 'unknown-context', 'target-absent', 'dup-param', 'dup-param-apart', 'dup-result', 'dup-result-apart', 'two-targets-second-altered', 'two-targets-first-altered', 'zero-results', 'two-results',
        'cose-garbage', 'asb-not-cbor', 'last-of-two-bibs', 'good-bib-bad-bcb', 'bad-bib-good-bcb', 'bitflip')
 GOOD = ('none', 'bib', 'bcb', 'bib+bcb')
 
@@ -76,6 +76,12 @@ def build(item, index):
         if what == 'none':
             return (rfc9171.encode_bundle(pri, [ext, payload]), 'deliver', plain)
         if what == 'bib':
+            if item.get('bit', 0) % 3 == 0:
+                # one integrity block over two targets, both intact
+                one = bpsec_cose.parse_asb(good_bib(ext, 2)['btsd'])
+                two = bpsec_cose.parse_asb(good_bib(payload, 2)['btsd'])
+                both = dict(good_bib(ext, 2), btsd=bpsec_cose.encode_asb([ext['num'], payload['num']], one['source'], one['params'], [one['results'][0], two['results'][0]], one['context_id'], one['flags']))
+                return (rfc9171.encode_bundle(pri, [both, ext, payload]), 'deliver', plain)
             return (rfc9171.encode_bundle(pri, [good_bib(payload, 2), ext, payload]), 'deliver', plain)
         if what == 'bcb':
             (bcb, enc) = good_bcb(payload, 3)
@@ -140,6 +146,14 @@ def build(item, index):
         sec = _asb_edit(sec, lambda new: new.update(results=[[(new['results'][0][0][0], b'\xff\x00garbage')]]))
     elif what == 'asb-not-cbor':
         sec = dict(sec, btsd=sec['btsd'][:len(sec['btsd']) // 2] + b'\xff\xff\x1f')
+    elif what in ('two-targets-second-altered', 'two-targets-first-altered'):
+        # one integrity block over two targets (extension block and payload), each with its own valid result; one target is altered
+        one = bpsec_cose.parse_asb(good_bib(ext, 2)['btsd'])
+        two = bpsec_cose.parse_asb(good_bib(payload, 2)['btsd'])
+        both = dict(good_bib(ext, 2), btsd=bpsec_cose.encode_asb([ext['num'], payload['num']], one['source'], one['params'], [one['results'][0], two['results'][0]], one['context_id'], one['flags']))
+        if what == 'two-targets-second-altered':
+            return (rfc9171.encode_bundle(pri, [both, ext, dict(payload, btsd=_altered(plain))]), 'reject', plain)
+        return (rfc9171.encode_bundle(pri, [both, dict(ext, btsd=_altered(ext['btsd'])), payload]), 'reject', plain)
     elif what == 'last-of-two-bibs':
         first = bpsec_cose.make_bib(pri, ext, key, b'mac256', num=5, alg=5, source='dtn://s/', crc_type=item['crc'])
         bad = good_bib(payload, 2, usekey=b'\xab' * 32)
